@@ -75,5 +75,10 @@ CLAIMED = {
   note="Bounds: 2 instances, 1-2 reports of one and 1 of the other, one pass of each cleanup, symbolic clock readings. Goroutines are run inline; heartbeat/cleanup races and timers are outside. In-flight counts of the global-count strategy are not yet part of the harness.",
   technique="symbolic execution of go/ssa + SMT (symbolic clock)",
   ref="9/C18"),
+ "C19": dict(
+  text="Bounded symbolic model checking of the real objectStore (Save/Delete/DeleteUpstream/Load/Stop/createOrUpdate/doSyncLocked with wait.ExponentialBackoff and retry.RetryOnConflict executed from source, the real in-memory store underneath) against a model of the API server behind a fake clientset: a symbolic outcome at every API call and a symbolic crash index; afterwards a fresh store of the shard loads from the API model.",
+  note="Bounds: histories of <= 2 (quick) / 3 (thorough) operations on one condition, symbolic quotas, faults {transient error on create/update/delete, conflict on update} at every call, crash after any of the first 6 API calls; periodic mode: <= 2 saves, <= 2 Stop attempts. Outside: the periodic flush goroutine racing with Delete, real API-server semantics beyond the modelled outcomes. Observation (not a C19 violation): after a failed Create the retry passes a nil object to Update and the process panics.",
+  technique="symbolic execution of go/ssa + SMT, fault/crash points as symbolic choices",
+  ref="9/C19"),
 }
 NOT_APPLICABLE = {}
